@@ -234,6 +234,10 @@ RefSet1(i, w) == /\ ARefSet(i, w) /\ i <= Len(ValEntries(toks))
 RefRemove1(i) == /\ ARefRemove(i) /\ i <= Len(ValEntries(toks))
                  /\ toks' = RmNode(toks, ValIdx(toks, i)) /\ changed' = TRUE
                  /\ UNCHANGED <<contc, reform>> /\ Step("refremove", <<>>, <<>>, i)
+\* append / replace / reference assignment with a text that is NOT a single item of the interpretation: the value
+\* factory refuses it, the token list is not touched and the list is not marked as changed (ListView!ARefuse)
+Refused1(op, v, i) == /\ ARefuse("ValueError") /\ UNCHANGED <<toks, contc, changed, reform>>
+                      /\ Step(op, v, <<>>, i)
 AppendSep1(sp) == /\ mode = "cm"              \* (in a space list the separator is a blank: not exercised)
                   /\ AAppendSep /\ SetSt(AppSep(mode, St, sp)) /\ changed' = TRUE /\ UNCHANGED reform
                   /\ Step(IF sp THEN "sep" ELSE "sep0", <<>>, <<>>, 0)
@@ -265,6 +269,8 @@ Next == \/ (phase = "grow" /\ ((\E t \in {SP, NL, CT, CM, SEP} \cup NextWords(la
               \/ \E v \in AppendVals : Append1(v)
               \/ \E v \in Targets : Remove1(v) \/ Replace1(v, <<NEWW>>)
               \/ \E i \in 1..Len(vals) : RefSet1(i, <<NEWW>>) \/ RefRemove1(i)
+              \/ (Extras /\ (\/ Refused1("badappend", <<>>, 0)
+                             \/ \E i \in 1..Len(vals) : Refused1("badreplace", vals[i], 0) \/ Refused1("badrefset", <<>>, i)))
               \/ (Extras /\ (AppendSep1(TRUE) \/ AppendSep1(FALSE) \/ AppendNl1 \/ AppendCmt1 \/ Reformat1
                               \/ NoReformat1 \/ VFmt1(TRUE) \/ VFmt1(FALSE))))
         \/ Close
